@@ -27,6 +27,7 @@ SameV(a, b) == DOMAIN a = DOMAIN b /\ a = b
 Judge(e) ==
   CASE e.ev = "yamlval" ->
          JudgeBatch(e.values, "value", SameV) \o JudgeBatch(e.locs, "location", SameV)
+         \o JudgeBatch(e.sets, "register-set", SameV)
     [] e.ev = "obs" ->
          IF ~e.cfgok THEN <<>>
          ELSE IF ~e.yaml_rt THEN << "C19:program:dump-does-not-reload-equal" >> ELSE <<>>
